@@ -408,7 +408,14 @@ impl SubscriptionManager {
             subscription_id,
             cursor: 0,
         };
-        subscription.spawn(matcher);
+        // "From latest" means from the confirmed position at the time of subscribing: take it
+        // here, before the task is spawned, so that nothing confirmed after this call is missed.
+        let latest_floor: HashMap<PartitionId, u64> = self
+            .watermarks
+            .iter()
+            .map(|(partition_id, watermark)| (*partition_id, watermark.get()))
+            .collect();
+        subscription.spawn(matcher, latest_floor);
     }
 
     pub fn broadcast(&self, record: EventRecord) {
@@ -434,9 +441,13 @@ struct Subscription {
 }
 
 impl Subscription {
-    fn spawn(mut self, matcher: SubscriptionMatcher) -> JoinHandle<()> {
+    fn spawn(
+        mut self,
+        matcher: SubscriptionMatcher,
+        latest_floor: HashMap<PartitionId, u64>,
+    ) -> JoinHandle<()> {
         tokio::spawn(async move {
-            match self.run(matcher).await {
+            match self.run(matcher, latest_floor).await {
                 Ok(()) => {
                     let _ = self.update_tx.send(SubscriptionEvent::Closed {
                         subscription_id: self.subscription_id,
@@ -453,17 +464,15 @@ impl Subscription {
         })
     }
 
-    async fn run(&mut self, mut matcher: SubscriptionMatcher) -> Result<(), SubscriptionError> {
-        // "From latest" means from the confirmed position at the time of subscribing. The
-        // confirmation actor re-broadcasts older confirmed events (it starts at sequence 0 and
-        // does not advance while nobody listens), so remember where each partition stood and
-        // drop live records below that for which the matcher has no position of its own.
-        let latest_floor: HashMap<PartitionId, u64> = self
-            .watermarks
-            .iter()
-            .map(|(partition_id, watermark)| (*partition_id, watermark.get()))
-            .collect();
-
+    /// `latest_floor` holds each partition's confirmed position at the time of subscribing.
+    /// The confirmation actor re-broadcasts older confirmed events (it starts at sequence 0
+    /// and does not advance while nobody listens); live records below the floor are dropped
+    /// while the matcher has no position of its own for their partition or stream.
+    async fn run(
+        &mut self,
+        mut matcher: SubscriptionMatcher,
+        latest_floor: HashMap<PartitionId, u64>,
+    ) -> Result<(), SubscriptionError> {
         self.read_history(&mut matcher).await?;
         #[cfg(feature = "verif-hooks")]
         crate::verif::pause_async("sub:history-done", self.subscription_id.as_u128()).await;
